@@ -337,6 +337,8 @@ type goLib = { xid_start : (z -> bool); xid_continue : (z -> bool);
 
 val f64_finite : f64 -> bool
 
+val f64_sign : f64 -> bool
+
 val f64_integral : f64 -> bool
 
 type f0 = spec_float
@@ -907,6 +909,38 @@ val excl_chain : chain -> bool
 
 val excl_C02 : path -> bool
 
+val kw_beq : kw -> kw -> bool
+
+val ctok : z -> token
+
+val kwt : kw -> char list -> token
+
+val binop_toks : binop -> token list
+
+val const_toks : constk -> bool -> token list
+
+val meth_kw : meth -> kw * char list
+
+val dtop_kw : dtop -> kw * char list
+
+val tparen : bool -> token list -> token list
+
+val regex_flag_text : z -> char list
+
+val int_toks : goLib -> z -> token list
+
+val num_toks : goLib -> f64 -> token list
+
+val level_toks : goLib -> z -> token list
+
+val any_toks : goLib -> z -> z -> token list
+
+val tok_step : goLib -> step -> bool -> bool -> bool -> token list
+
+val tok_chain : goLib -> chain -> bool -> bool -> token list
+
+val tok_path : goLib -> path -> token list
+
 val mk_lib : (char list -> z -> bool) -> goLib
 
 val hexd : z -> char
@@ -940,6 +974,18 @@ val dump_path : path -> char list
 val lex_err_name : lex_err -> char list
 
 val err_name : err_kind -> char list
+
+val lex_err_beq : lex_err -> lex_err -> bool
+
+val internal_positive_beq : positive -> positive -> bool
+
+val internal_Z_beq : z -> z -> bool
+
+val tkind_beq : tkind -> tkind -> bool
+
+val tok_eqb : token -> token -> bool
+
+val toks_eqb : token list -> token list -> bool
 
 val run_line : (char list -> z -> bool) -> char list -> char list
 
